@@ -817,6 +817,45 @@ def r01_46_unstable(ctx, m):
                 raise AnalysisError("R01.4", f.where(n), f"cannot read the orientation guard of the reversal: {gs}")
             verdict = verdict or (True, kind)
         ctx.check(verdict[0], "R01.4", f.where(), "segments of a reverse-orientation interval are emitted in reversed order, forward ones in SO order", key_of(f, f"reversed-emission:{verdict[1]}"), how=verdict[1])
+    ctx.run(r01_10, f, site)
+
+
+def r01_10(ctx, f, site):
+    """The sign written in front of a segment id is the orientation of the interval the segment was found for: the
+    orientation variable is bound once per interval (inside the interval loop), so a sign + id concatenation placed after
+    that loop applies the last interval's orientation to the segments of every interval."""
+    iv_loop = None
+    for lp in walk_own(f.node):
+        if isinstance(lp, (ast.For, ast.While)) and any(x is site.loop for x in ast.walk(lp)) and lp is not site.loop:
+            if iv_loop is None or any(x is iv_loop for x in ast.walk(lp)):
+                iv_loop = lp
+    if iv_loop is None:
+        raise AnalysisError("R01.10", f.where(site.loop), "cannot find the loop over the intervals of the stable path")
+    inside = {id(x) for x in ast.walk(iv_loop)}
+    stored_in = {x.id for x in ast.walk(iv_loop) if isinstance(x, ast.Name) and isinstance(x.ctx, ast.Store)}
+    orient = {c.left.id for c in walk_own(f.node) if isinstance(c, ast.Compare) and isinstance(c.left, ast.Name) and len(c.ops) == 1 and const_value(c.comparators[0]) in ("<", ">")} & stored_in
+    orient |= {s_.targets[0].id for s_ in walk_stmts(iv_loop.body) if isinstance(s_, ast.Assign) and isinstance(s_.targets[0], ast.Name) and const_value(s_.value) in ("<", ">")}
+    if not orient:
+        raise AnalysisError("R01.10", f.where(iv_loop), "cannot identify the variable holding the orientation of the current interval")
+    parents = {}
+    for x in ast.walk(f.node):
+        for c in ast.iter_child_nodes(x):
+            parents[id(c)] = x
+    n_in = 0
+    late = None
+    for x in walk_own(f.node):
+        if isinstance(x, ast.Name) and isinstance(x.ctx, ast.Load) and x.id in orient:
+            par = parents.get(id(x))
+            glue = isinstance(par, ast.BinOp) and isinstance(par.op, (ast.Add, ast.Mod)) or isinstance(par, (ast.FormattedValue, ast.JoinedStr)) or (isinstance(par, ast.Tuple) and isinstance(parents.get(id(par)), ast.BinOp))
+            if not glue:
+                continue
+            if id(x) in inside:
+                n_in += 1
+            elif f.before(iv_loop, x):
+                late = x
+    ctx.check(late is None, "R01.10", f.where(late if late is not None else iv_loop), "every sign written in front of a segment id is the orientation of the interval that segment was found for (the sign and the id are joined inside the per-interval loop)", key_of(f, f"sign-after-loop:{norm(parents.get(id(late)))[:60] if late is not None else ''}"), **({"late_use": norm(parents.get(id(late)))[:80], "why": f"`{late.id}` is bound once per interval; after the loop it holds the orientation of the last interval only, so the segments of every interval of a mixed path (`>chr1:0-10<hapA:5-9`) are written with that one sign"} if late is not None else {"joined_in_loop": n_in}))
+    if late is None and n_in == 0:
+        raise AnalysisError("R01.10", f.where(iv_loop), "cannot find where the orientation sign is joined with the segment ids")
 
 
 def _stmt_of(f, node):
